@@ -57,7 +57,7 @@ fn generate(rng: &mut Rng) -> C10Sc {
         strategy: Script::always(Some(0), StratRes::Index(rng.below(ntargets as u64) as usize)),
         ..Default::default()
     };
-    let first = ConnScenario {
+    let mut first = ConnScenario {
         seed: rng.next_u64(),
         cfg: ConnCfg { secret, expiry: Some(expiry), max_frame: None, client_addr: gen_addr(rng) },
         wall: Wall {
@@ -78,13 +78,16 @@ fn generate(rng: &mut Rng) -> C10Sc {
         4 => -3600,
         _ => rng.below(expiry.clamp(1, 100_000)) as i64,
     };
-    C10Sc {
-        first,
+    let mut sc = C10Sc {
+        first: first.clone(),
         gap_s,
         second_port_xor: if rng.chance(1, 2) { 0 } else { 1 + rng.below(1000) as u16 },
         second_seed: rng.next_u64(),
         present_session: rng.chance(3, 4),
-    }
+    };
+    zero_time_noise(rng, &mut first);
+    sc.first = first;
+    sc
 }
 
 fn vouched(sc: &ConnScenario) -> Identity {
@@ -259,7 +262,7 @@ impl Check for C10 {
     }
     fn execute(&self, sc: &C10Sc) -> RunReport {
         let c = &sc.first.client;
-        if !conn_domain_ok(&sc.first) || !matches!(c.intent, 2 | 3) || c.script.is_some() || !c.mutations.is_empty() || !matches!(c.enc, crate::client::EncVariant::Honest) || !c.send_info || c.auth_cookie.is_some() {
+        if !conn_domain_ok(&sc.first) || !matches!(c.intent, 2 | 3) || c.script.is_some() || !c.mutations.is_empty() || !matches!(c.enc, crate::client::EncVariant::Honest) || !c.send_info || c.auth_cookie.is_some() || !transport_is_zero_time(&sc.first) {
             return RunReport::default();
         }
         let o1 = run_conn(&sc.first);
